@@ -7,9 +7,9 @@ package c08
 // adds it itself), so everything after it - including the package path - is
 // handed to the test binary and the run fails with "no Go files in
 // /verif/harness". Until the driver is corrected this wrapper starts the three
-// targets itself (in parallel, bounded fuzztime), folds the workers' evidence
-// counters into this process's recorders and turns a crasher into a test
-// failure that carries the failing corpus entry.
+// targets itself (one after the other, bounded fuzztime), folds the workers'
+// evidence counters into this process's recorders and turns a crasher that
+// reproduces as a plain test into a test failure carrying the corpus entry.
 
 import (
 	"bytes"
@@ -20,7 +20,6 @@ import (
 	"path/filepath"
 	"regexp"
 	"strings"
-	"sync"
 	"testing"
 	"time"
 
@@ -47,102 +46,37 @@ func TestNativeFuzz(t *testing.T) {
 	if pkgdir == "" {
 		t.Skip("VERIF_PKGDIR not set (run through /verif/run)")
 	}
-	harness := filepath.Dir(filepath.Dir(pkgdir))
-	fuzztime := os.Getenv("VERIF_C08_FUZZTIME")
-	if fuzztime == "" {
-		fuzztime = "240s"
+	fz := fuzzRun{pkgdir: pkgdir, harness: filepath.Dir(filepath.Dir(pkgdir)), fuzztime: "150s", workers: "6"}
+	if v := os.Getenv("VERIF_C08_FUZZTIME"); v != "" {
+		fz.fuzztime = v
 	}
-	workers := os.Getenv("VERIF_C08_FUZZWORKERS")
-	if workers == "" {
-		workers = "5"
+	if v := os.Getenv("VERIF_C08_FUZZWORKERS"); v != "" {
+		fz.workers = v
 	}
-	wd, _ := os.Getwd()
+	fz.wd, _ = os.Getwd()
 	targets := []fuzzTarget{{"FuzzReadMessage", recFuzzMsg}, {"FuzzTxDecode", recFuzzTx}, {"FuzzBlockDecode", recFuzzBlock}}
-	// build once so that the three runs do not compile concurrently
-	pre := exec.Command("go", "test", "-tags", "verif", "-vet=off", "-run", "^$", "-fuzz", "^FuzzNothing$", "-fuzztime", "1x", "./checks/c08")
-	pre.Dir = harness
-	pre.Env = fuzzEnv("")
-	pre.CombinedOutput()
-
-	var wg sync.WaitGroup
-	var mu sync.Mutex
 	var failures, inconclusive []string
+	// The targets run one after the other (their workers compete with the
+	// rapid shards of the same run for the cores), each at most twice: Go's
+	// fuzz workers abort when a single execution takes more than 10 s of wall
+	// time, which an overloaded machine produces without any defect.
 	for _, tg := range targets {
-		wg.Add(1)
-		go func(tg fuzzTarget) {
-			defer wg.Done()
-			stats := filepath.Join(wd, "fuzzstats-"+tg.name+".json")
-			cmd := exec.Command("go", "test", "-tags", "verif", "-vet=off", "-run", "^$", "-fuzz", "^"+tg.name+"$",
-				"-fuzztime", fuzztime, "-parallel", workers, "./checks/c08")
-			cmd.Dir = harness
-			cmd.Env = fuzzEnv(stats)
-			var out bytes.Buffer
-			cmd.Stdout, cmd.Stderr = &out, &out
-			start := time.Now()
-			err := cmd.Run()
-			text := out.String()
-			execs := int64(0)
-			if m := reExecs.FindAllStringSubmatch(text, -1); m != nil {
-				fmt.Sscan(m[len(m)-1][1], &execs)
-			}
-			mu.Lock()
-			defer mu.Unlock()
-			recNativeFuzz.Bulk(execs, 0)
-			recNativeFuzz.Count(tg.name+"-execs", execs)
-			recNativeFuzz.Set(tg.name, fmt.Sprintf("execs=%d wall=%s workers=%s", execs, time.Since(start).Round(time.Second), workers))
-			files, _ := filepath.Glob(stats + ".w*")
-			for _, f := range files {
-				if !strings.HasSuffix(f, ".hashes") {
-					foldStats(f, tg.rec)
-				}
-			}
-			if err == nil {
-				return
-			}
-			// The engine reported a failure. Go's fuzz workers abort when one
-			// execution takes more than 10 s of wall time ("deadlocked!"),
-			// which a loaded machine produces without any defect, so the
-			// failure is confirmed deterministically first: the target is run
-			// as a plain test over its seed corpus plus the crashers the
-			// engine just wrote (no watchdog there, same oracle).
-			text = sanitize(text)
-			entries, _ := filepath.Glob(filepath.Join(pkgdir, "testdata", "fuzz", tg.name, "*"))
-			var fresh []string
-			for _, e := range entries {
-				if st, serr := os.Stat(e); serr == nil && !st.ModTime().Before(start) {
-					fresh = append(fresh, e)
-				}
-			}
-			re := exec.Command("go", "test", "-tags", "verif", "-vet=off", "-run", "^"+tg.name+"$", "./checks/c08")
-			re.Dir = harness
-			re.Env = fuzzEnv("")
-			reOut, reErr := re.CombinedOutput()
-			var msg string
-			confirmed := reErr != nil
-			if confirmed {
-				msg = fmt.Sprintf("native fuzz target %s failed and the failure reproduces as a plain test:\n%s\n--- engine output:\n%s", tg.name, lastLines(sanitize(string(reOut)), 60), lastLines(text, 25))
-			} else {
-				msg = fmt.Sprintf("native fuzz target %s: a fuzz worker died (%v) but seed corpus and crashers pass as a plain test - engine watchdog/machine load, inconclusive:\n%s", tg.name, err, lastLines(text, 25))
-			}
-			for _, e := range fresh {
-				body, _ := os.ReadFile(e)
-				dst := filepath.Join(wd, "testdata", "rapid", "TestNativeFuzz")
-				os.MkdirAll(dst, 0o755)
-				os.WriteFile(filepath.Join(dst, tg.name+"-"+filepath.Base(e)+".fail"), body, 0o644)
-				os.Remove(e)
-				if len(body) > 6000 {
-					body = body[:6000]
-				}
-				msg += fmt.Sprintf("\ncorpus entry written by the engine (place under checks/c08/testdata/fuzz/%s/ to replay):\n%s", tg.name, body)
+		for attempt := 1; attempt <= 2; attempt++ {
+			confirmed, msg := fz.run(tg, attempt)
+			if msg == "" {
+				break
 			}
 			if confirmed {
 				failures = append(failures, msg)
-			} else {
-				inconclusive = append(inconclusive, msg)
+				break
 			}
-		}(tg)
+			if attempt == 2 {
+				inconclusive = append(inconclusive, msg)
+			} else {
+				recNativeFuzz.Count(tg.name+"-retries", 1)
+			}
+		}
 	}
-	wg.Wait()
 	for _, f := range failures {
 		t.Errorf("%s", f)
 	}
@@ -153,6 +87,73 @@ func TestNativeFuzz(t *testing.T) {
 			t.Errorf("VERIF-INFRA: %s", f)
 		}
 	}
+}
+
+type fuzzRun struct {
+	pkgdir, harness, wd, fuzztime, workers string
+}
+
+// run fuzzes one target once. It returns ("", false) on success, a message
+// and whether the failure was confirmed deterministically otherwise.
+func (fz fuzzRun) run(tg fuzzTarget, attempt int) (confirmed bool, msg string) {
+	stats := filepath.Join(fz.wd, fmt.Sprintf("fuzzstats-%s-%d.json", tg.name, attempt))
+	cmd := exec.Command("go", "test", "-tags", "verif", "-vet=off", "-run", "^$", "-fuzz", "^"+tg.name+"$",
+		"-fuzztime", fz.fuzztime, "-parallel", fz.workers, "./checks/c08")
+	cmd.Dir = fz.harness
+	cmd.Env = fuzzEnv(stats)
+	var out bytes.Buffer
+	cmd.Stdout, cmd.Stderr = &out, &out
+	start := time.Now()
+	err := cmd.Run()
+	text := sanitize(out.String())
+	execs := int64(0)
+	if m := reExecs.FindAllStringSubmatch(text, -1); m != nil {
+		fmt.Sscan(m[len(m)-1][1], &execs)
+	}
+	recNativeFuzz.Bulk(execs, 0)
+	recNativeFuzz.Count(tg.name+"-execs", execs)
+	recNativeFuzz.Set(fmt.Sprintf("%s-attempt%d", tg.name, attempt), fmt.Sprintf("execs=%d wall=%s workers=%s err=%v", execs, time.Since(start).Round(time.Second), fz.workers, err))
+	files, _ := filepath.Glob(stats + ".w*")
+	for _, f := range files {
+		if !strings.HasSuffix(f, ".hashes") {
+			foldStats(f, tg.rec)
+		}
+	}
+	if err == nil {
+		return false, ""
+	}
+	// The engine reported a failure. It is confirmed deterministically
+	// first: the target is run as a plain test over its seed corpus plus the
+	// crashers the engine just wrote (no watchdog there, same oracle).
+	entries, _ := filepath.Glob(filepath.Join(fz.pkgdir, "testdata", "fuzz", tg.name, "*"))
+	var fresh []string
+	for _, e := range entries {
+		if st, serr := os.Stat(e); serr == nil && !st.ModTime().Before(start) {
+			fresh = append(fresh, e)
+		}
+	}
+	re := exec.Command("go", "test", "-tags", "verif", "-vet=off", "-run", "^"+tg.name+"$", "./checks/c08")
+	re.Dir = fz.harness
+	re.Env = fuzzEnv("")
+	reOut, reErr := re.CombinedOutput()
+	confirmed = reErr != nil
+	if confirmed {
+		msg = fmt.Sprintf("native fuzz target %s failed and the failure reproduces as a plain test:\n%s\n--- engine output:\n%s", tg.name, lastLines(sanitize(string(reOut)), 60), lastLines(text, 25))
+	} else {
+		msg = fmt.Sprintf("native fuzz target %s (attempt %d): a fuzz worker died (%v) but seed corpus and crashers pass as a plain test - engine watchdog/machine load, inconclusive:\n%s", tg.name, attempt, err, lastLines(text, 12))
+	}
+	for _, e := range fresh {
+		body, _ := os.ReadFile(e)
+		dst := filepath.Join(fz.wd, "testdata", "rapid", "TestNativeFuzz")
+		os.MkdirAll(dst, 0o755)
+		os.WriteFile(filepath.Join(dst, tg.name+"-"+filepath.Base(e)+".fail"), body, 0o644)
+		os.Remove(e)
+		if len(body) > 6000 {
+			body = body[:6000]
+		}
+		msg += fmt.Sprintf("\ncorpus entry written by the engine (place under checks/c08/testdata/fuzz/%s/ to replay):\n%s", tg.name, body)
+	}
+	return confirmed, msg
 }
 
 func fuzzEnv(stats string) []string {
